@@ -487,11 +487,11 @@ func debugName(v ssa.Value) string {
 // ---------------------------------------------------------------------------
 
 var protoPkgs = map[string]bool{
-	"cloud.google.com/go/bigtable/apiv2/bigtablepb":       true,
-	"cloud.google.com/go/bigtable/admin/apiv2/adminpb":    true,
-	"google.golang.org/protobuf/types/known/durationpb":   true,
-	"google.golang.org/protobuf/types/known/timestamppb":  true,
-	"google.golang.org/protobuf/types/known/wrapperspb":   true,
+	"cloud.google.com/go/bigtable/apiv2/bigtablepb":      true,
+	"cloud.google.com/go/bigtable/admin/apiv2/adminpb":   true,
+	"google.golang.org/protobuf/types/known/durationpb":  true,
+	"google.golang.org/protobuf/types/known/timestamppb": true,
+	"google.golang.org/protobuf/types/known/wrapperspb":  true,
 }
 
 func isIntType(t types.Type) bool {
